@@ -7,8 +7,11 @@
    by guards so that they appear in the edge labels of the dumped graph.
 
    A server-issued request is modelled in its steps:
-       SReqStart(s,r)      the tool handler in session s calls ListRoots: entry registered, frame written on s's stream
-       ClientAnswer(p,r)   session p POSTs a response carrying request r's id (p may be the wrong session)
+       SReqStart(s,r,i)    a request is issued in session s: entry registered, frame written on s's stream;
+                           i = "auto" (server-chosen unique id, ListRoots) or "x" (ONE caller-chosen id that
+                           different sessions may use at the same time - ids are scoped to a session)
+       ClientAnswer(p,r,q) session p POSTs a response carrying request r's id (p may be the wrong session);
+                           q = the request it is accepted for, or None
        SReqReturn(s,r,from) ListRoots returns the accepted answer (from = the session that posted it)
        SReqCancel(s,r)     the caller's context ends first: ListRoots returns an error
    KeyBySession = TRUE : the pending entry is matched on (session, id)            (intended)
@@ -29,13 +32,15 @@ VARIABLES made,      \* number of sessions created so far
           open,      \* sessions with an open stream
           rstate,    \* request r: "unused" | "pending" | "answered" | "done"
           rsess,     \* session r was issued in
-          rfrom      \* session whose answer was accepted for r
+          rfrom,     \* session whose answer was accepted for r
+          rid        \* id class of r: "none" | "auto" | "x"
 
-vars == <<made, live, open, rstate, rsess, rfrom>>
+vars == <<made, live, open, rstate, rsess, rfrom, rid>>
 
 Init ==
   /\ made = 0 /\ live = {} /\ open = {}
   /\ rstate = [r \in Req |-> "unused"] /\ rsess = [r \in Req |-> None] /\ rfrom = [r \in Req |-> None]
+  /\ rid = [r \in Req |-> "none"]
 
 Busy(s) == \E r \in Req : rstate[r] \in {"pending", "answered"} /\ rsess[r] = s
 
@@ -43,24 +48,24 @@ NewSession(s) ==
   /\ made < NSess /\ s = SessSeq[made + 1]
   /\ made' = made + 1 /\ live' = live \cup {s}
   /\ open' = IF Kind = "legacy" THEN open \cup {s} ELSE open
-  /\ UNCHANGED <<rstate, rsess, rfrom>>
+  /\ UNCHANGED <<rstate, rsess, rfrom, rid>>
 
 OpenStream(s) ==
   /\ Kind = "streamable" /\ s \in live /\ s \notin open
   /\ open' = open \cup {s}
-  /\ UNCHANGED <<made, live, rstate, rsess, rfrom>>
+  /\ UNCHANGED <<made, live, rstate, rsess, rfrom, rid>>
 
 \* the client drops its stream; with the legacy transport the session dies with it
 CloseStream(s) ==
   /\ s \in open /\ ~Busy(s)
   /\ open' = open \ {s}
   /\ live' = IF Kind = "legacy" THEN live \ {s} ELSE live
-  /\ UNCHANGED <<made, rstate, rsess, rfrom>>
+  /\ UNCHANGED <<made, rstate, rsess, rfrom, rid>>
 
 DeleteSession(s) ==
   /\ Kind = "streamable" /\ s \in live /\ ~Busy(s)
   /\ live' = live \ {s} /\ open' = open \ {s}
-  /\ UNCHANGED <<made, rstate, rsess, rfrom>>
+  /\ UNCHANGED <<made, rstate, rsess, rfrom, rid>>
 
 (* ------------------------------------------------------------ notifications *)
 SendNotification(s, ok) ==
@@ -82,32 +87,38 @@ SendFiltered(F, reached, count) ==
   /\ UNCHANGED vars
 
 (* ------------------------------------------------------------ server-issued requests *)
-SReqStart(s, r) ==
+SReqStart(s, r, i) ==
   /\ s \in live /\ s \in open /\ ~Busy(s)
-  /\ rstate[r] = "unused"
-  /\ \A q \in Req : (\E i, j \in 1..NReq : ReqSeq[i] = q /\ ReqSeq[j] = r /\ i < j) => rstate[q] # "unused"
+  /\ rstate[r] = "unused" /\ i \in {"auto", "x"}
+  /\ \A q \in Req : (\E a, b \in 1..NReq : ReqSeq[a] = q /\ ReqSeq[b] = r /\ a < b) => rstate[q] # "unused"
   /\ rstate' = [rstate EXCEPT ![r] = "pending"]
   /\ rsess' = [rsess EXCEPT ![r] = s]
+  /\ rid' = [rid EXCEPT ![r] = i]
   /\ UNCHANGED <<made, live, open, rfrom>>
 
+\* q carries the same wire id as r
+SameId(q, r) == q = r \/ (rid[q] = "x" /\ rid[r] = "x")
+\* the pending request a response from p with r's id belongs to (at most one: one request per session at a time)
+Target(p, r) == {q \in Req : rstate[q] = "pending" /\ SameId(q, r) /\ (KeyBySession => rsess[q] = p)}
+
 \* session p posts a response that carries r's request id
-ClientAnswer(p, r, accepted) ==
+ClientAnswer(p, r, q) ==
   /\ p \in live /\ rstate[r] \in {"pending", "answered"}
-  /\ accepted = (rstate[r] = "pending" /\ (KeyBySession => p = rsess[r]))
-  /\ IF accepted
-       THEN rstate' = [rstate EXCEPT ![r] = "answered"] /\ rfrom' = [rfrom EXCEPT ![r] = p]
+  /\ IF Target(p, r) = {} THEN q = None ELSE q \in Target(p, r)
+  /\ IF q # None
+       THEN rstate' = [rstate EXCEPT ![q] = "answered"] /\ rfrom' = [rfrom EXCEPT ![q] = p]
        ELSE UNCHANGED <<rstate, rfrom>>
-  /\ UNCHANGED <<made, live, open, rsess>>
+  /\ UNCHANGED <<made, live, open, rsess, rid>>
 
 SReqReturn(s, r, from) ==
   /\ rstate[r] = "answered" /\ rsess[r] = s /\ from = rfrom[r]
   /\ rstate' = [rstate EXCEPT ![r] = "done"]
-  /\ UNCHANGED <<made, live, open, rsess, rfrom>>
+  /\ UNCHANGED <<made, live, open, rsess, rfrom, rid>>
 
 SReqCancel(s, r) ==
   /\ rstate[r] = "pending" /\ rsess[r] = s
   /\ rstate' = [rstate EXCEPT ![r] = "done"]
-  /\ UNCHANGED <<made, live, open, rsess, rfrom>>
+  /\ UNCHANGED <<made, live, open, rsess, rfrom, rid>>
 
 Next ==
   \/ \E s \in Sess : NewSession(s)
@@ -117,8 +128,8 @@ Next ==
   \/ \E s \in Sess, ok \in BOOLEAN : SendNotification(s, ok)
   \/ \E reached \in SUBSET Sess, count \in 0..NSess : Broadcast(reached, count)
   \/ \E F \in Filters, reached \in SUBSET Sess, count \in 0..NSess : SendFiltered(F, reached, count)
-  \/ \E s \in Sess, r \in Req : SReqStart(s, r)
-  \/ \E p \in Sess, r \in Req, a \in BOOLEAN : ClientAnswer(p, r, a)
+  \/ \E s \in Sess, r \in Req, i \in {"auto", "x"} : SReqStart(s, r, i)
+  \/ \E p \in Sess, r \in Req, q \in Req \cup {None} : ClientAnswer(p, r, q)
   \/ \E s \in Sess, r \in Req, f \in Sess : SReqReturn(s, r, f)
   \/ \E s \in Sess, r \in Req : SReqCancel(s, r)
 
@@ -129,6 +140,8 @@ TypeOK == live \subseteq Sess /\ open \subseteq live
 \* the pending table: entries of requests still in flight
 Pending == {r \in Req : rstate[r] \in {"pending", "answered"}}
 AnswerFromAddresseeOnly == \A r \in Req : rfrom[r] # None => rfrom[r] = rsess[r]
+\* the addressee's own answer is never turned away while its request is pending
+OwnAnswerAccepted == \A r \in Req : rstate[r] = "pending" => Target(rsess[r], r) = {r}
 NothingPendingAtQuiescence == (\A s \in Sess : ~Busy(s)) => Pending = {}
 \* vacuity guard: the wrong-session answer is really explored
 ReachWrongAnswer == ~(\E r \in Req : rstate[r] = "done" /\ rfrom[r] # None /\ made >= 2)
